@@ -34,7 +34,15 @@ def build_runner(tier):
     if rc != 0:
         return None, "mldrv emitunits: " + out[-500:]
     hdir = os.path.join(ROOT, "harness")
-    rc, out = sh(["go", "build", "-o", os.path.join(ROOT, "build", "genrun"), "./cmd/genrun"], cwd=hdir, env=GOENV, timeout=900)
+    cmd = ["go", "build", "-o", os.path.join(ROOT, "build", "genrun")]
+    if _repo() != "/repo":
+        # development aid (as in engine.build_tools): the generator linked into genrun must be the scratch worktree's
+        os.makedirs(CACHE, exist_ok=True)
+        alt = os.path.join(CACHE, "alt.mod")
+        open(alt, "w").write(open(os.path.join(hdir, "go.mod")).read().replace("=> /repo", "=> " + _repo()))
+        shutil.copyfile(os.path.join(_repo(), "go.sum"), os.path.join(CACHE, "alt.sum"))
+        cmd += ["-modfile=" + alt]
+    rc, out = sh(cmd + ["./cmd/genrun"], cwd=hdir, env=GOENV, timeout=900)
     if rc != 0:
         return None, "go build genrun (does /repo still compile?): " + out[-2000:]
     tiern = "0" if tier == "quick" else "1"
